@@ -124,3 +124,72 @@ Proof.
   exists n. split; [assumption|]. destruct Ha as [Heq|(Hlt & Hf)]; [now left|right].
   split; [assumption|]. unfold frw in Hf. destruct (nth_error (sw_trees w) (s_cr n)) as [bo|]; [|discriminate]. eauto.
 Qed.
+
+(* ---------------------------------------------------------------- the write set of an operation *)
+
+(* `ext c s s'` (Proofs/BTreeStore.v): nothing disappears, no creator tag ever changes, and every
+   node NOT tagged c is exactly as before.  Every operation on tree i satisfies it with c = i; the
+   operations without a target (new tree, clone) only allocate. *)
+Lemma ext_refl' c s : ext c s s.
+Proof. exact (ext_refl eq (fun a => eq_refl) (fun a b d H1 H2 => eq_trans H1 H2) c s). Qed.
+
+Lemma ext_trans' c s1 s2 s3 : ext c s1 s2 -> ext c s2 s3 -> ext c s1 s3.
+Proof. exact (ext_trans eq (fun a => eq_refl) (fun a b d H1 H2 => eq_trans H1 H2) c s1 s2 s3). Qed.
+
+Definition wtag (w : sworld) (x : sop) : nat :=
+  match target x with Some i => i | None => length (sw_trees w) end.
+
+Lemma ext_alloc c s n : ext c s (s ++ [n]).
+Proof.
+  split; [rewrite app_length; lia|]. intros id m Hm.
+  assert (id < length s)%nat by (apply nth_error_Some; congruence).
+  rewrite nth_error_app1 by assumption. split; [auto|eauto].
+Qed.
+
+Lemma exec_prim_writes sw x sw' o :
+  WI sw -> exec_prim sw x = (sw', o) -> ext (wtag sw x) (sw_store sw) (sw_store sw').
+Proof.
+  intros HW H. pose proof HW as (Hok & Htr). unfold wtag.
+  destruct x; cbn [exec_prim target] in *; try (inversion H; subst; apply ext_refl').
+  - unfold s_new in H. destruct (Z.to_nat t <? 3)%nat; [inversion H; subst; apply ext_refl'|].
+    unfold alloc in H. inversion H; subst sw' o. cbn [sw_store]. apply ext_alloc.
+  - unfold s_with_tree in H. destruct (nth_error (sw_trees sw) (Z.to_nat ti)) as [b|] eqn:Eb; [|inversion H; subst; apply ext_refl'].
+    unfold s_mutate in H.
+    destruct (s_insert_element (sw_store sw) b (k, v) match io with Some x => x | None => sb_inorder b end)
+      as [((s' & b') & oe)|e|e] eqn:Ei; cbn [bind] in H; try (inversion H; subst; apply ext_refl').
+    inversion H; subst sw' o. cbn [sw_store]. destruct (Htr _ b Eb) as (Hcb & Hvb).
+    exact (proj2 (proj1 (s_insert_element_ok (ancw (frw (sw_trees sw))) (ancw_refl _) (ancw_trans _) (Z.to_nat ti)
+                (sw_store sw) b (k, v) _ s' b' oe Hok Hvb Hcb Ei))).
+  - unfold s_with_tree in H. destruct (nth_error (sw_trees sw) (Z.to_nat ti)) as [b|] eqn:Eb; [|inversion H; subst; apply ext_refl'].
+    unfold s_mutate in H.
+    destruct (s_delete (sw_store sw) b k exact) as [((s' & b') & od)|e|e] eqn:Ei; cbn [bind] in H; try (inversion H; subst; apply ext_refl').
+    inversion H; subst sw' o. cbn [sw_store]. destruct (Htr _ b Eb) as (Hcb & Hvb).
+    exact (proj2 (proj1 (s_delete_ok (ancw (frw (sw_trees sw))) (ancw_refl _) (ancw_trans _) (Z.to_nat ti)
+                (sw_store sw) b k exact s' b' od Hok Hvb Hcb Ei))).
+  - unfold s_with_tree in H. destruct (nth_error (sw_trees sw) (Z.to_nat ti)); inversion H; subst; apply ext_refl'.
+  - unfold s_with_tree in H. destruct (nth_error (sw_trees sw) (Z.to_nat ti)) as [b|]; [|inversion H; subst; apply ext_refl'].
+    unfold s_clone in H. destruct (sb_immut b); inversion H; subst; apply ext_refl'.
+Qed.
+
+Lemma s_clear_writes ti : forall fuel sw, WI sw -> ext (Z.to_nat ti) (sw_store sw) (sw_store (s_clear fuel sw ti)).
+Proof.
+  induction fuel as [|f IH]; intros sw HW; [apply ext_refl'|]. cbn [s_clear].
+  destruct (s_first sw ti) as [e|]; [|apply ext_refl'].
+  destruct (exec_prim sw (SDel ti (fst e) None 2)) as (sw1 & o1) eqn:E1. cbn [fst].
+  pose proof (exec_prim_writes _ _ _ _ HW E1) as H1. unfold wtag in H1. cbn [target] in H1.
+  destruct (exec_prim_isolated _ _ _ _ HW E1) as (HW1 & _).
+  eapply ext_trans'; [exact H1|]. now apply IH.
+Qed.
+
+Theorem writes_own_nodes_only_proof xs x w' o :
+  let w := execs (mkSW [] []) xs in
+  exec w x = (w', o) -> ext (wtag w x) (sw_store w) (sw_store w').
+Proof.
+  intros w H. pose proof (WI_reachable xs) as HW. fold w in HW.
+  destruct x; cbn [exec] in H; try (exact (exec_prim_writes _ _ _ _ HW H)).
+  - destruct (s_lookup w ti k); [|inversion H; subst; apply ext_refl']. exact (exec_prim_writes _ _ _ _ HW H).
+  - destruct (s_first w ti); [|inversion H; subst; apply ext_refl']. exact (exec_prim_writes _ _ _ _ HW H).
+  - injection H as Hsw _. subst w'.
+    change (ext (Z.to_nat ti) (sw_store w) (sw_store (s_clear (S (tree_size w ti)) w ti))). now apply s_clear_writes.
+  - destruct (s_lookup w ti k); [inversion H; subst; apply ext_refl'|]. exact (exec_prim_writes _ _ _ _ HW H).
+Qed.
